@@ -234,14 +234,17 @@ theorem stableAtSide_path (fc : FloatConv) (env : FilterEnv) (fenv : FormatEnv) 
 /-! ### `float` where it stands -/
 
 theorem floatFilter_append {fc : FloatConv} {u : Str} {v : Val}
-    (h : floatFilter fc u = some ⟨v, u.length, none⟩) (hdot : '.' ∈ u) (rest : Str)
-    (hr : ∀ c, rest.head? = some c → isDecDigit c = false) :
+    (h : floatFilter fc u = some ⟨v, u.length, none⟩) (rest : Str)
+    (hr : ∀ c, rest.head? = some c → isDecDigit c = false) (hdot : '.' ∈ u ∨ dotDigit rest = false) :
     floatFilter fc (u ++ rest) = some ⟨v, u.length, none⟩ := by
   obtain ⟨l, hl, hreq⟩ := floatFilter_spec h
   simp only [FilterRes.mk.injEq, and_true] at hreq
   obtain ⟨hv, hn⟩ := hreq
-  have hfp := floatLex_fp_of_dot hl hn.symm hdot
-  have hl' := floatLex_append hl hn.symm hfp rest hr
+  have hfp : l.fp ≠ [] ∨ dotDigit rest = false := by
+    rcases hdot with hd | hd
+    · exact Or.inl (floatLex_fp_of_dot hl hn.symm hd)
+    · exact Or.inr hd
+  have hl' := floatLex_append hl hn.symm rest hr hfp
   unfold floatFilter
   rw [hl']
   simp only [Option.map_some, Option.some.injEq, FilterRes.mk.injEq, and_true]
@@ -258,6 +261,23 @@ theorem floatValOK_spec {fc : FloatConv} {v : Val} (h : floatValOK fc v = true) 
     simp only [Bool.and_eq_true, List.contains_iff_mem, beq_iff_eq] at h
     exact ⟨u, rfl, h.1, h.2⟩
 
+theorem floatSide_spec {fc : FloatConv} {v : Val} {rest' : Str} (h : floatSide fc v rest' = true) :
+    ∃ u, floatFmt v = some u ∧ floatFilter fc u = some ⟨v, u.length, none⟩ ∧ ('.' ∈ u ∨ dotDigit rest' = false) := by
+  unfold floatSide at h
+  cases hf : floatFmt v with
+  | none => rw [hf] at h; cases h
+  | some u =>
+    rw [hf] at h
+    simp only [Bool.and_eq_true, Bool.or_eq_true, List.contains_iff_mem, beq_iff_eq, Bool.not_eq_true'] at h
+    exact ⟨u, rfl, h.1, h.2⟩
+
+theorem floatSide_of_floatValOK {fc : FloatConv} {v : Val} (h : floatValOK fc v = true) (rest' : Str) :
+    floatSide fc v rest' = true := by
+  obtain ⟨u, h1, h2, h3⟩ := floatValOK_spec h
+  unfold floatSide
+  rw [h1]
+  simp [h3, h2]
+
 /-- what a `float` wildcard contributes to the URL -/
 theorem piece_float (fc : FloatConv) (env : FilterEnv) (fenv : FormatEnv) {g : Fid} (hg : isFloatFid g = true)
     {v : Val} {u : Str} (hf : floatFmt v = some u) (nxt : Str)
@@ -267,24 +287,24 @@ theorem piece_float (fc : FloatConv) (env : FilterEnv) (fenv : FormatEnv) {g : F
     Bool.false_eq_true, if_false, if_true, sanity, withBuiltin_float fc env hg, hs, bind, Except.bind, pure,
     Except.pure, Functor.map, Except.map, beq_self_eq_true]
 
-/-- **`float` is stable where it stands** for a value whose formatted text has a decimal point and
-is read back as the same value (`floatValOK`), when the wildcards directly after it keep the head
-of their text -/
+/-- **`float` is stable where it stands** for a value whose formatted text is read back as the
+same value and either has a decimal point or is not followed by `.` and a digit (`floatSide`),
+when the wildcards directly after it keep the head of their text -/
 theorem stableAtSide_float (fc : FloatConv) (env : FilterEnv) (fenv : FormatEnv) (g : Fid) (p' : List Sym)
     (hg : isFloatFid g = true) (hrun : HeadRun (withBuiltin fc env) (withFloatFmt fenv) p') :
     StableAtSide fc (withBuiltin fc env) (withFloatFmt fenv) (some g) p' := by
-  intro path r vs rest' _ ht hm hb _ hside
+  intro path r vs rest' _ ht hm hb hrm hside
   have ht' : floatFilter fc path = some r := by
     rw [← withBuiltin_float fc env hg]; exact ht
   obtain ⟨l, hl, hreq⟩ := floatFilter_spec ht'
   have hn : r.n = l.len := by rw [hreq]
   have hstop : ∀ c, (path.drop r.n).head? = some c → isDecDigit c = false := by
     rw [hn]; exact floatLex_stop hl
-  have hok : floatValOK fc r.val = true := by
+  have hok : floatSide fc r.val rest' = true := by
     have := hside
     simp only [tokSide, not_int_of_float hg, hg, Bool.false_eq_true, if_false, if_true] at this
     exact this
-  obtain ⟨u, hfm, hdot, hfu⟩ := floatValOK_spec hok
+  obtain ⟨u, hfm, hfu, hdot⟩ := floatSide_spec hok
   have hsh : SameHead (path.drop r.n) rest' := sameHead_of_headRun hrun hm hb
   have hrest : ∀ c, rest'.head? = some c → isDecDigit c = false := sameHead_stop hsh hstop
   have hnxt : ∀ c, (litRun p').head? = some c → isDecDigit c = false := by
@@ -295,14 +315,33 @@ theorem stableAtSide_float (fc : FloatConv) (env : FilterEnv) (fenv : FormatEnv)
     cases hq : litRun p' with
     | nil => rw [hq] at hc; simp at hc
     | cons a q => rw [hq] at hc; simpa using hc
-  refine ⟨u, piece_float fc env fenv hg hfm _ (floatFilter_append hfu hdot _ hnxt), ?_,
+  have hnxtdot : '.' ∈ u ∨ dotDigit (litRun p') = false := by
+    rcases hdot with hd | hd
+    · exact Or.inl hd
+    · right
+      -- the literal run is a prefix of `rest'` as well (the rest of the rule matches `rest'`)
+      obtain ⟨t, htt⟩ := matchRule_litRun_prefix hrm
+      cases hq : litRun p' with
+      | nil => rfl
+      | cons a q =>
+        cases q with
+        | nil => rfl
+        | cons b q' =>
+          rw [hq] at htt
+          rw [← htt] at hd
+          exact hd
+  have hune : u ≠ [] := by
+    intro hnil
+    obtain ⟨l, hl, hreq⟩ := floatFilter_spec hfu
+    rw [hnil] at hl
+    simp [floatLex, lexBody] at hl
+  refine ⟨u, piece_float fc env fenv hg hfm _ (floatFilter_append hfu _ hnxt hnxtdot), ?_,
     ⟨r.val, u.length, none⟩, ?_, rfl, rfl⟩
   · intro hnil
-    rw [(List.append_eq_nil_iff.mp hnil).1] at hdot
-    cases hdot
+    exact hune (List.append_eq_nil_iff.mp hnil).1
   · show withBuiltin fc env g (u ++ rest') = _
     rw [withBuiltin_float fc env hg]
-    exact floatFilter_append hfu hdot rest' hrest
+    exact floatFilter_append hfu rest' hrest hdot
 
 /-! ### every built-in wildcard is stable where it stands -/
 
@@ -444,7 +483,7 @@ theorem sideOK_static (fc : FloatConv) (env : FilterEnv) (fenv : FormatEnv) (p :
           · simp [tokSide, hi]
           · have := hfl.1
             simp only [hf, Bool.not_true, Bool.false_or] at this
-            simp [tokSide, not_int_of_float hf, hf, this]
+            simp [tokSide, not_int_of_float hf, hf, floatSide_of_floatValOK this]
           · simp only [Bool.and_eq_true, beq_iff_eq, Bool.not_eq_true'] at hp
             have hg := hp.1.1
             have htxt : textOnly p = true := by
